@@ -246,8 +246,9 @@ inductive Op (K : Type)
   | binop (op : BinOp) (a : Nat) (b : Operand K)
   /-- `a <op>= b` -/
   | inplace (op : BinOp) (a : Nat) (b : Operand K)
-  /-- `np.array(h.data)`: what `MemoryStorage.append` keeps -/
-  | storeFrame (h : Nat)
+  /-- `storage.append(h)`: `np.array(h.data)` is kept (memory.py:207-218); `into` is the dtype of the
+  storage: data that cannot be cast to it (`same_kind`) are rejected (storage/base.py:149-155) -/
+  | storeFrame (h : Nat) (into : Option DType)
   /-- `f = template.copy(); f.data = frame`: what `storage[i]` returns -/
   | loadFrame (template : Nat) (frame : Nat)
 
@@ -580,6 +581,12 @@ def compObj (o : Obj) (c : Nat) : Obj :=
   { cls := .scalar, grid := o.grid, ncomp := 1,
     view := ⟨o.view.buf, o.view.off + c * (o.view.len / o.ncomp), o.view.len / o.ncomp⟩ }
 
+/-- storage/base.py:149-155: `not np.can_cast(field.dtype, storage.dtype, casting="same_kind")` -/
+def storeRejected (into : Option DType) (d : DType) : Bool :=
+  match into with
+  | some t => decide (t.kind < d.kind)
+  | none => false
+
 /-- one operation; an error leaves the state as it was -/
 def step (G : List Grid) (s : State K) (op : Op K) : Except Err (State K) :=
   match op with
@@ -640,10 +647,11 @@ def step (G : List Grid) (s : State K) (op : Op K) : Except Err (State K) :=
     | .ok o => negate G s o
   | .binop op a b => binop G s op a b
   | .inplace op a b => inplace G s op a b
-  | .storeFrame h =>
+  | .storeFrame h into =>
     match getObj s h with
     | .error e => .error e
     | .ok o =>
+      if storeRejected into (s.store.dtOf o.view.buf) then .error .cast else
       .ok (s.allocObj (compact (selList G o) (s.store.readView o.view))
         (s.store.dtOf o.view.buf) { o with cls := .raw, members := [] })
   | .loadFrame t f =>
